@@ -710,6 +710,29 @@ class _Misc(ast.NodeTransformer):
         stmts = self._function_valued_locals(stmts)
         out = []
         for st in stmts:
+            # v = reduce(F, xs, init) / return reduce(F, xs, init)   ->   acc = init; for x in xs: acc = F(acc, x); [return acc]
+            rv = st.value if isinstance(st, (ast.Return, ast.Assign)) else None
+            if isinstance(rv, ast.Call) and ast.unparse(rv.func) in ("reduce", "functools.reduce") and len(rv.args) == 3 and not rv.keywords and (isinstance(st, ast.Return) or (len(st.targets) == 1 and isinstance(st.targets[0], ast.Name))):
+                F, xs, init = rv.args
+                extra_kw, extra_args = [], []
+                if isinstance(F, ast.Call) and ast.unparse(F.func) in ("partial", "functools.partial") and F.args and isinstance(F.args[0], (ast.Name, ast.Attribute)) and all(k.arg for k in F.keywords) and len(F.args) == 1:
+                    extra_kw, F = F.keywords, F.args[0]
+                if isinstance(F, (ast.Name, ast.Attribute)) and f"{self.modname}.{ast.unparse(F).split('.')[-1]}" not in _KNOWN_FUNCS:
+                    acc = st.targets[0].id if isinstance(st, ast.Assign) else "acc__n"
+                    item = "item__n"
+                    step = ast.Assign(targets=[ast.Name(id=acc, ctx=ast.Store())], value=ast.Call(func=F, args=[ast.Name(id=acc, ctx=ast.Load()), ast.Name(id=item, ctx=ast.Load())], keywords=list(extra_kw)))
+                    new = [ast.Assign(targets=[ast.Name(id=acc, ctx=ast.Store())], value=init), ast.For(target=ast.Name(id=item, ctx=ast.Store()), iter=xs, body=[step], orelse=[])]
+                    if isinstance(st, ast.Return):
+                        new.append(ast.Return(value=ast.Name(id=acc, ctx=ast.Load())))
+                    for x in new:
+                        ast.copy_location(x, st)
+                        for z in ast.walk(x):
+                            if not hasattr(z, "lineno"):
+                                ast.copy_location(z, st)
+                        ast.fix_missing_locations(x)
+                    self.log.append(f"reduce() written out as a loop {self.modname}:{st.lineno}")
+                    out += new
+                    continue
             # return [..comprehension..] if c else [..comprehension..]  ->  if c: return [...] else: return [...]
             if isinstance(st, ast.Return) and isinstance(st.value, ast.IfExp) and isinstance(st.value.body, (ast.ListComp, ast.List)) and isinstance(st.value.orelse, (ast.ListComp, ast.List)):
                 new = ast.If(test=st.value.test, body=[ast.Return(value=st.value.body)], orelse=[ast.Return(value=st.value.orelse)])
@@ -2431,9 +2454,14 @@ def peewee_shortcuts(modules, log):
         ast.fix_missing_locations(mi.tree)
 
 
+_KNOWN_FUNCS: set = set()
+
+
 def run(modules, known_funcs):
     """normalise all module trees in place; returns the list of rewrites performed"""
     log = []
+    _KNOWN_FUNCS.clear()
+    _KNOWN_FUNCS.update(known_funcs)
     merge_new_modules(modules, known_funcs, log)
     fold_new_bases(modules, known_funcs, log)
     singledispatch_chains(modules, log)
